@@ -174,6 +174,16 @@ def St.writable (s : St) : Bool :=
   | some w => w.isOpen && !w.dead
   | none => false
 
+/-- `if self.last_pong_tm >= self.last_ping_tm: self.last_ping_tm = time.time()` — the new value of `last_ping_tm` when a
+    ping is sent: an unanswered ping keeps its stamp (generated fact; the pinned commit stamped every ping). -/
+def pingStamp (s : St) : Nat :=
+  if Gen.appPingStampWhenAnswered && decide (s.lastPong < s.lastPing) then s.lastPing else s.now
+
+/-- `if self.last_pong_tm < self.last_ping_tm: self.last_pong_tm = time.time()` — the new value of `last_pong_tm` when a
+    pong is read: only the answer to the outstanding ping is timed (generated fact; the pinned commit stamped every pong). -/
+def pongStamp (s : St) : Nat :=
+  if Gen.appPongStampWhenOutstanding && !decide (s.lastPong < s.lastPing) then s.lastPong else s.now
+
 /-- one timed wake of `_send_ping` (`stop_ping.wait(iv)` returned False). -/
 def pingFire (c : Cfg) (s : St) (p : PingTh) : St :=
   let s := { s with now := max s.now p.wake }
@@ -182,7 +192,7 @@ def pingFire (c : Cfg) (s : St) (p : PingTh) : St :=
   else
     let s := match s.sock with
       | some _ =>
-        let s := { s with lastPing := s.now }
+        let s := { s with lastPing := pingStamp s }
         if s.writable then s.emit (.wrote Gen.opcodePing c.payload) else s
       | none => s
     { s with ping := some { wake := p.wake + c.iv.toNat, first := false } }
@@ -391,7 +401,7 @@ def handleEv (c : Cfg) (s : St) : SrvEv → St × R Bool
     let s := if s.writable then s.emit (.wrote Gen.opcodePong p) else s
     asRead true (callback c s .onPing [.bytes p])
   | .pong p =>
-    let s := { s with lastPong := s.now }
+    let s := { s with lastPong := pongStamp s }
     asRead true (callback c s .onPong [.bytes p])
   | .close body =>
     -- recv_data_frame: send_close() (connected := False, close 1000 written), then routing
